@@ -162,13 +162,16 @@ func layFiller(it *layItem) string {
 const layTypes = `package p
 
 type LayA struct {
-	X int
-	Y string
+	X    int
+	Y    string
+	U_Id int
 }
 
 type LayB struct {
-	X int
-	Y string
+	X    int
+	Y    string
+	U_Id int
+	V_2  int
 }
 
 type A struct{ X int }
@@ -283,10 +286,14 @@ func layRender(l *layCase) map[string]string {
 			}
 			return m + "(*LayA) *LayB"
 		}
+		eq := ""
+		if it.Nm == "alias" {
+			eq = "= "
+		}
 		if it.Oneline {
-			fmt.Fprintf(&sb, "type %s interface{ %s }", layIntfName(it), sig(ms[0]))
+			fmt.Fprintf(&sb, "type %s %sinterface{ %s }", layIntfName(it), eq, sig(ms[0]))
 		} else {
-			fmt.Fprintf(&sb, "type %s interface {\n", layIntfName(it))
+			fmt.Fprintf(&sb, "type %s %sinterface {\n", layIntfName(it), eq)
 			if emb, _ := layEmbedded(l); emb != "" && it == layFirstConv(l) {
 				fmt.Fprintf(&sb, "\t%s\n", emb)
 			}
@@ -307,6 +314,10 @@ func layRender(l *layCase) map[string]string {
 				}
 				if lay.Imports == "dot" && selected && k == 0 {
 					sb.WriteString("\t// :conv HelpConv X\n")
+				}
+				if selected && !it.Short && k == len(ms)-1 && it.Mdoc {
+					// field names with an underscore are ordinary Go identifiers
+					sb.WriteString("\t// :map X V_2\n\t// :literal U_Id 7\n")
 				}
 				fmt.Fprintf(&sb, "\t%s%s\n", sig(m), tr)
 			}
